@@ -283,4 +283,24 @@ VerifyOutcome(scriptSig, scriptPubKey, ctx) ==
   ELSE "accept"
 VerifyLenient(scriptSig, scriptPubKey, ctx) ==
   VerifyOutcome(scriptSig, scriptPubKey, [ctx EXCEPT !.lz = TRUE]) # VerifyOutcome(scriptSig, scriptPubKey, [ctx EXCEPT !.lz = FALSE])
+
+\* ------------------------------------------------------------ VerifyScript as a machine
+\* v = [phase, vm, copy, sig, pk, verdict]; phases "sig" -> "pk" -> ("redeem") -> "done"
+VInit(scriptSig, scriptPubKey) ==
+  [phase |-> "sig", vm |-> InitVM(scriptSig, <<>>), copy |-> <<>>, sig |-> scriptSig, pk |-> scriptPubKey, verdict |-> "none"]
+VDone(v, verdict) == [v EXCEPT !.phase = "done", !.verdict = verdict]
+TopTrue(S) == S # <<>> /\ CastToBool(S[Len(S)])
+VConclude(v, ctx) ==
+  IF "CLEANSTACK" \in ctx.flags /\ Len(v.vm.stack) # 1 THEN VDone(v, "reject") ELSE VDone(v, "accept")
+VStep(v, ctx) ==
+  IF v.vm.status = "run" THEN [v EXCEPT !.vm = IF AtEnd(@) THEN Finish(@) ELSE Step(@, ctx)]
+  ELSE IF v.vm.status = "fail" THEN VDone(v, "reject")
+  ELSE CASE v.phase = "sig" -> [v EXCEPT !.phase = "pk", !.copy = v.vm.stack, !.vm = InitVM(v.pk, v.vm.stack)]
+         [] v.phase = "pk" ->
+              IF ~TopTrue(v.vm.stack) THEN VDone(v, "reject")
+              ELSE IF "P2SH" \in ctx.flags /\ IsP2SH(v.pk)
+                   THEN IF ~IsPushOnly(v.sig) THEN VDone(v, "reject")
+                        ELSE [v EXCEPT !.phase = "redeem", !.vm = InitVM(v.copy[Len(v.copy)], Pop(v.copy, 1))]
+                   ELSE VConclude(v, ctx)
+         [] v.phase = "redeem" -> IF ~TopTrue(v.vm.stack) THEN VDone(v, "reject") ELSE VConclude(v, ctx)
 =============================================================================
